@@ -13,11 +13,15 @@ args = [a for a in args if a != '--scratch']
 ID, X, checks = args[0], args[1], args[2:]
 root = os.environ.get('SEED_ROOT', '/tmp/seed2')          # round 3: /tmp/seed2 (kept as -A/-B); round 4: /tmp/seed3 (kept as -C/-D)
 src = Path(f'{root}/{ID}.out')
-name = f"{ID}-{ {'A': 'C', 'B': 'D'}[X] if root.endswith('seed3') else ({'A': 'E', 'B': 'F'}[X] if root.endswith('seed4') else X)}"
+name = f"{ID}-{ {'A': 'C', 'B': 'D'}[X] if root.endswith('seed3') else ({'A': 'E', 'B': 'F', 'H': 'H'}[X] if root.endswith('seed4') else X)}"
 dst = Path('/verif/seeded') / name
 dst.mkdir(parents=True, exist_ok=True)
 shutil.copy(src / f'patch{X}.diff', dst / 'patch.diff')
-shutil.copy(src / f'demo{X}.py', dst / 'demo.py')
+if X == 'H':       # a harmless refactoring: both demonstrations of the same agent must still pass with it
+    shutil.copy(src / 'demoA.py', dst / 'demoA.py')
+    shutil.copy(src / 'demoB.py', dst / 'demoB.py')
+else:
+    shutil.copy(src / f'demo{X}.py', dst / 'demo.py')
 if (src / 'notes.md').exists():
     shutil.copy(src / 'notes.md', dst / 'notes.md')
 os.environ.setdefault('VERIF_EVIDENCE_DIR', f'/tmp/x/ev/s2/{name}')
@@ -41,13 +45,19 @@ else:
     tree = '/repo'
     assert sh('git -C /repo status --short')[1].strip() == '', '/repo not clean'
 try:
-    rc0, out0 = sh(f'timeout 300 /venv/bin/python {dst}/demo.py {tree}', 320)
-    meta['demo_on_unchanged'] = rc0
-    rc, out = sh(f'git -C {tree} apply {dst}/patch.diff')
-    assert rc == 0, 'patch does not apply: ' + out
-    rc1, out1 = sh(f'timeout 300 /venv/bin/python {dst}/demo.py {tree}', 320)
-    meta['demo_on_changed'] = rc1
-    meta['demo_says'] = out1.strip()[-400:]
+    if X == 'H':
+        meta['harmless'] = True
+        rc, out = sh(f'git -C {tree} apply {dst}/patch.diff')
+        assert rc == 0, 'patch does not apply: ' + out
+        meta['demos_on_changed'] = [sh(f'timeout 300 /venv/bin/python {dst}/demo{q}.py {tree}', 320)[0] for q in 'AB']
+    else:
+        rc0, out0 = sh(f'timeout 300 /venv/bin/python {dst}/demo.py {tree}', 320)
+        meta['demo_on_unchanged'] = rc0
+        rc, out = sh(f'git -C {tree} apply {dst}/patch.diff')
+        assert rc == 0, 'patch does not apply: ' + out
+        rc1, out1 = sh(f'timeout 300 /venv/bin/python {dst}/demo.py {tree}', 320)
+        meta['demo_on_changed'] = rc1
+        meta['demo_says'] = out1.strip()[-400:]
     rct, outt = sh(f'cd {tree} && timeout 600 /venv/bin/python -m pytest -q -p no:cacheprovider --timeout=900 --continue-on-collection-errors 2>&1 | tail -1', 700)
     meta['pinned_tests_with_change'] = outt.strip()
     res = {}
@@ -78,6 +88,6 @@ meta['needs_to_manifest'] = old.get('needs_to_manifest', '')
 if scratch and old.get('mode', '').startswith('patch applied'):
     meta['official'] = {k: old.get(k) for k in ('checks', 'caught_by', 'concrete')}
 json.dump(meta, open(dst / 'meta.json', 'w'), indent=1)
-print(name, json.dumps({k: meta[k] for k in ('demo_on_unchanged', 'demo_on_changed', 'pinned_tests_with_change', 'caught_by', 'concrete')}))
+print(name, json.dumps({k: meta.get(k) for k in ('demo_on_unchanged', 'demo_on_changed', 'demos_on_changed', 'pinned_tests_with_change', 'caught_by', 'concrete')}))
 for c, r in meta.get('checks', {}).items():
     print(' ', c, r['exit'], r['seconds'], *r['lines'][:3], sep='\n    ')
